@@ -111,8 +111,7 @@ func init() {
 
 	// ---- sync: single-threaded execution ---------------------------------
 	nop := func(in *Interp, fr *frame, a []Value) (Value, bool) { return nil, true }
-	for _, n := range []string{"(*sync.RWMutex).Lock", "(*sync.RWMutex).Unlock",
-		"(*sync.RWMutex).RLock", "(*sync.RWMutex).RUnlock", "runtime.SetFinalizer", "runtime.KeepAlive", "runtime.GC",
+	for _, n := range []string{"runtime.SetFinalizer", "runtime.KeepAlive", "runtime.GC",
 		"internal/race.Acquire", "internal/race.Release", "internal/race.ReleaseMerge", "internal/race.Disable", "internal/race.Enable",
 		"internal/race.Read", "internal/race.Write", "internal/race.ReadRange", "internal/race.WriteRange"} {
 		intrinsics[n] = nop
